@@ -10,8 +10,8 @@ def run(ctx: Ctx) -> int:
     jobs += [Job(H, "h_programs", timeout=t, name=f"h_programs[shard {i + 1}/{nsh}]", env={"VERIF_C15_SHARD": f"{i}/{nsh}"}) for i in range(nsh)]
     ctx.functions_encoded = ["definition/overloaded.py: OverloadedFunctionDef.check_call, synthesize_call, _call_error, OverloadNoMatchError, AvailableOverloadsHint",
                              "guppylang/decorator.py: guppy.overload; checker/expr_checker.py: check_call / synthesize_call of the variants, numeric coercion of arguments (through the real check())"]
-    ctx.bounds = {"kernel": "1..4 variants, each succeeding or raising a GuppyError (symbolic), synthesis and checking", "programs": "11 overload sets (arity, int/float/nat/bool, generic, tuple, differing result types; 2-4 variants, "
-                  "overlapping) x 10 argument lists x 4 positions (synthesis; checked against int / float / bool) = 440 calls, each compared with the direct calls of its variants"}
+    ctx.bounds = {"kernel": "1..4 variants, each succeeding or raising a GuppyError (symbolic), synthesis and checking", "programs": "14 overload sets (arity, int/float/nat/bool, generic, tuple, differing result types, overload sets nested as variants; 2-4 variants, "
+                  "overlapping) x 10 argument lists x 4 positions (synthesis; checked against int / float / bool) = 560 calls, each compared with the direct calls of its variants"}
     ctx.outside_claim = ["run-time behaviour of the selected variant (follows from the checked call naming it)", "overload sets of the standard library other than through the programs above (range, result, panic are exercised by C18 / C32)",
                          "variants that raise a non-Guppy exception"]
     ctx.assumptions = ["'accepts the arguments' = the real checker accepts the direct call of that variant in the same position"]
